@@ -16,6 +16,8 @@ pub struct StreamEncryptor<R> {
     source: R,
     /// Indicates if we are done reading from the `source`.
     is_source_done: bool,
+    /// Set when filling the buffer failed, the encryptor can not continue after that.
+    is_failed: bool,
     /// Total number of bytes read from the source.
     bytes_read: u64,
     chunk_index: u64,
@@ -58,6 +60,7 @@ impl<R: io::Read> StreamEncryptor<R> {
         Ok(StreamEncryptor {
             source,
             is_source_done: false,
+            is_failed: false,
             bytes_read: 0,
             chunk_index: 0,
             info,
@@ -144,10 +147,18 @@ impl<R: io::Read> StreamEncryptor<R> {
 
 impl<R: io::Read> io::Read for StreamEncryptor<R> {
     fn read(&mut self, buf: &mut [u8]) -> io::Result<usize> {
+        if self.is_failed {
+            return Err(io::Error::other("encryptor is in error state"));
+        }
         if !self.buffer.has_remaining() {
             if !self.is_source_done {
                 // Still more to read and encrypt from the source.
-                self.fill_buffer()?;
+                if let Err(err) = self.fill_buffer() {
+                    // The buffer may hold plaintext that was not encrypted yet, never hand it out.
+                    self.buffer.clear();
+                    self.is_failed = true;
+                    return Err(err);
+                }
             } else {
                 // The final chunk was written, we have nothing left to give.
                 return Ok(0);
